@@ -17,6 +17,7 @@ import asyncio
 import contextlib
 import gc
 import io
+import os
 import sys
 import types
 import warnings
@@ -399,6 +400,16 @@ def run_config(cfg):
 
             loop.on_jump = on_jump
             try:
+                # watchdog: an implementation that spins without ever yielding to the loop is a livelock
+                import signal
+
+                def _alarm(signum, frame):
+                    raise Livelock("no progress for 120 s of wall-clock time")
+                try:
+                    signal.signal(signal.SIGALRM, _alarm)
+                    signal.setitimer(signal.ITIMER_REAL, int(os.environ.get("VERIF_WATCHDOG", "120")))
+                except ValueError:          # not in the main thread
+                    pass
                 # half of the generated trees go through the synchronous wrappers run() / shutdown()
                 v = root.run() if cfg.get("sync_api") else loop.run_until_complete(root.co_run())
                 res["outcome"] = ["true" if v is True else "false" if v is False else repr(v)]
@@ -432,6 +443,11 @@ def run_config(cfg):
                     rec.rec("lateshutdown", "raise:" + type(e).__name__)
             rec.active = False
     finally:
+        try:
+            import signal
+            signal.setitimer(signal.ITIMER_REAL, 0)
+        except ValueError:
+            pass
         PS.asyncio, PS.time = old_asyncio, old_time
         try:
             for t in asyncio.all_tasks(loop):
